@@ -16,9 +16,10 @@ from __future__ import annotations
 import ast
 import io
 import json
+import os
 import tokenize
 
-from vlib import astcanon, c01_findings, common, corpus, pygen, pymutate, pyoracle, stylist
+from vlib import astcanon, c01_findings, common, corpus, pygen, pymutate, pyoracle, strgen, stylist
 from vlib.common import Failure, Stats
 
 PROP = "C01"
@@ -147,6 +148,34 @@ def worker_corpus(arg):
     return st
 
 
+def worker_files(arg):
+    """Whole files as single programs (exec mode): state that leaks from one statement into a later one
+    (tokenizer flags, indentation stack) only shows in multi-statement texts."""
+    files, scratch = arg
+    st = Stats()
+    for path in files:
+        src = corpus.read_source(path)
+        if not src or len(src) > 120000:
+            continue
+        r = pyoracle.compare(src, "exec", do_compile=False)
+        if r.kind == "invalid":
+            continue
+        try:
+            tree = r.ctree
+            ex = excluded_shapes(pyoracle.prep(src, "exec"), tree)
+        except RecursionError:
+            ex = ["?"]
+        if ex:
+            # the file contains shapes of recorded findings: check it statement-group-wise instead (the families above do)
+            for f in ex:
+                st.excluded_known[f] += 1
+            continue
+        st.case(("file", path), True, ["whole-file", "mode:exec"], sample={"file": os.path.relpath(path, corpus.STDLIB)}, max_per_label=2)
+        if r.failed:
+            record_failure(st, src, "exec", r, "whole-file", reduce=True)
+    return st
+
+
 def worker_texts(arg):
     texts, family, scratch = arg
     st = Stats()
@@ -271,7 +300,17 @@ def worker_gen(arg):
 
     def body(rnd):
         g = pygen.Gen(rnd, budget=budget)
-        shape = rnd.randrange(6)
+        shape = rnd.randrange(7)
+        if shape == 6:
+            text = strgen.program(rnd)
+            try:
+                pyoracle.cpy_parse(text)
+            except (SyntaxError, ValueError):
+                st.discards += 1
+                st.hist["gen-selfcheck-failed"] += 1
+                return
+            check_generated(st, text, "generated-strings", modes=("exec",))
+            return
         if shape == 0:
             tree = ast.Module(body=[ast.Expr(value=g.expr(4))], type_ignores=[])
             modes = MODES
@@ -339,6 +378,10 @@ def main(run):
     nmut = run.n(1800, 60000)
     common.pool_map(run, __name__, "worker_mut",
                     [(common.worker_seed(run.seed, w), nmut, gfiles[w % 4::4], run.scratch) for w in range(nw)])
+    # whole files (multi-statement programs)
+    wfiles = [f for f in files if os.path.getsize(f) < 120000]
+    wfiles = wfiles if run.tier == "thorough" else wfiles[:160]
+    common.pool_map(run, __name__, "worker_files", [(wfiles[i::nw], run.scratch) for i in range(nw) if wfiles[i::nw]])
     ngen = run.n(900, 40000)
     common.pool_map(run, __name__, "worker_gen",
                     [(common.worker_seed(run.seed, 50 + w), ngen, 25 + 10 * (w % 4), run.scratch) for w in range(nw)])
